@@ -5,6 +5,8 @@ import KyupyVerif.Model.Heap
 import KyupyVerif.Model.Kahn
 import KyupyVerif.Model.Net
 import KyupyVerif.Model.SimOps
+import KyupyVerif.Model.WaveCirc
+import KyupyVerif.Model.Capture
 import KyupyVerif.Gen.Tables
 import KyupyVerif.Drv.Registry
 /-! Line protocol driver: one request per line on stdin, one answer per line on stdout.
@@ -57,6 +59,50 @@ def handle (f : Array String) : String :=
   let (ents, term, nr, nf) := waveEval lut D ws terms zcap
   s!"{",".intercalate (ents.map showT)} {showT term} {nr} {nf}"
 end WaveD
+
+/-! ### whole WaveSim propagation over an op program -/
+namespace WaveSimD
+open KV.Wave KV.Sig
+def parseWv (s : String) : Wv :=
+  match s.splitOn ":" with
+  | [e, t] => ⟨WaveD.parseList (if e == "-" then "" else e), WaveD.parseT t⟩
+  | _ => Wv.empty
+def showWv (w : Wv) : String :=
+  let e := ",".intercalate (w.ents.map WaveD.showT)
+  s!"{if e == "" then "-" else e}:{WaveD.showT w.term}"
+def parseOp (s : String) : Op :=
+  match (s.splitOn ",").map String.toNat! with
+  | [l, o, a, b, c, d] => ⟨l, o, [a, b, c, d]⟩
+  | [l, o, a, b, c, d, da, db, dc, dd] => ⟨l, o, [a, b, c, d, da, db, dc, dd]⟩
+  | _ => ⟨0, 0, []⟩
+/-- wavesim <ops> ; <delays per index: d00,d01,d10,d11> ; <caps csv> ; <stim idx=wv ...> -/
+def handle (rest : String) : String :=
+  match (rest.splitOn ";").map (·.trimAscii.toString) with
+  | [opsS, delS, capS, stimS] =>
+    let ops := (opsS.splitOn " ").filter (· ≠ "") |>.map parseOp
+    let dels := ((delS.splitOn " ").filter (· ≠ "") |>.map fun d => (d.splitOn ",").map String.toInt!).toArray
+    let caps := (parseNats capS).toArray
+    let cfg : WCfg := { delay := fun l p q => ((dels.getD l []).getD ((if p then 2 else 0) + (if q then 1 else 0)) 0),
+                        cap := fun i => caps.getD i 0 }
+    let stim := (stimS.splitOn " ").filter (· ≠ "") |>.map fun t =>
+      match t.splitOn "=" with
+      | [i, w] => (i.toNat!, parseWv w)
+      | _ => (0, Wv.empty)
+    let n := caps.size
+    let env0 : Array Wv := (List.range n).map (fun i => match stim.find? (·.1 == i) with | some p => p.2 | none => Wv.empty) |>.toArray
+    -- array-based execution (`execArrG`, proved equal to `execG` = `simWave`), recording counts per op
+    let (envF, cnts) := ops.foldl (fun (acc : Array Wv × List (Nat × Nat)) op =>
+        let xs := op.ins.map fun i => acc.1.getD i Wv.empty
+        (execArrStep Wv.empty (waveSem cfg) acc.1 op, acc.2 ++ [waveCounts cfg op xs])) (env0, [])
+    let written := ops.map (·.out) ++ stim.map (·.1)
+    let sigs := (List.range n).map fun i => if written.contains i then showWv (envF.getD i Wv.empty) else "."
+    s!"{" ".intercalate sigs} ; {" ".intercalate (cnts.map fun c => s!"{c.1},{c.2}")}"
+  | _ => "bad"
+/-- capture <wv> <time|M> : init eat lst final val ovl -/
+def capture (w : String) (t : String) : String :=
+  let r := KV.Wave.captureWv (parseWv w) (WaveD.parseT t)
+  s!"{if r.init then 1 else 0} {WaveD.showT r.eat} {WaveD.showT r.lst} {if r.final then 1 else 0} {if r.val then 1 else 0} {if r.ovl then 1 else 0}"
+end WaveSimD
 
 /-! ### heap -/
 namespace HeapD
@@ -139,6 +185,8 @@ def step (st : DState) (line : String) : DState × String :=
       | some h' => ({ st with heap := h' }, s!"ok ; {HeapD.dump h'}")
       | none => (st, "err")
   | "kahn" :: _ => (st, KahnD.handle (l.drop 5).toString)
+  | "wavesim" :: _ => (st, WaveSimD.handle (l.drop 8).toString)
+  | ["capture", w, t] => (st, WaveSimD.capture w t)
   | "net" :: _ => ({ st with net := NetD.parseNet (l.drop 4).toString }, "ok")
   | ["snodes"] => (st, NetD.showNats st.net.sNodes)
   | ["genops", strip, order] =>
